@@ -52,6 +52,14 @@ def _run_one(args) -> dict:
     tmp = Path(tempfile.mkdtemp(prefix=f"sa-mut-{prop}-"))
     try:
         _copy_tree(Path(src_root), tmp)
+        if name in ("twin-unparse", "twin-rename"):
+            from .twin import rewrite_tree
+
+            rewrite_tree(tmp, rename=(name == "twin-rename"))
+            keys, err = _failing_keys(prop, tmp)
+            new = sorted(keys - set(baseline))
+            gone = sorted(set(baseline) - keys)
+            return {"mutant": name, "status": "missed" if not new and not gone and not err else "noisy", "new_keys": new[:4], "gone_keys": gone[:4], "detail": err or ""}
         applicable = True
         for rel, old, new in edits:
             p = tmp / rel
@@ -88,14 +96,21 @@ def run_selftest(ctx: Context, mod) -> None:
 
     muts = MUTANTS.get(ctx.prop, [])
     baseline = sorted({i.key for i in ctx.instances if not i.ok})
-    jobs = [(ctx.prop, str(ctx.repo.root), "twin-unedited", [], baseline)]
+    jobs = [(ctx.prop, str(ctx.repo.root), "twin-unedited", [], baseline),
+            (ctx.prop, str(ctx.repo.root), "twin-unparse", [], baseline),
+            (ctx.prop, str(ctx.repo.root), "twin-rename", [], baseline)]
     for name, edits in muts:
         jobs.append((ctx.prop, str(ctx.repo.root), name, edits, baseline))
     workers = min(16, max(1, len(jobs)))
     with ProcessPoolExecutor(max_workers=workers) as ex:
         results = list(ex.map(_run_one, jobs))
+    twins = results[:3]
+    results = [results[0]] + results[3:]
     twin = results[0]
-    twin_ok = twin["status"] == "missed"  # no new key on the unedited copy
+    twin_ok = all(t["status"] == "missed" for t in twins)  # no key changes on unedited / re-printed / renamed copies
+    for t in twins:
+        if t["status"] != "missed":
+            print(f"SELFTEST-TWIN-NOISY property={ctx.prop} {t['mutant']}: new={t.get('new_keys')} gone={t.get('gone_keys')} {t.get('detail', '')}")
     det = [r for r in results[1:] if r["status"] == "detected"]
     miss = [r for r in results[1:] if r["status"] == "missed"]
     aerr = [r for r in results[1:] if r["status"] == "analysis-error"]
@@ -114,5 +129,6 @@ def run_selftest(ctx: Context, mod) -> None:
         "analysis_error": [r["mutant"] for r in aerr],
         "not_applicable": [r["mutant"] for r in na],
         "twin_silent": twin_ok,
+        "twins": [{"twin": t["mutant"], "identical_verdict": t["status"] == "missed"} for t in twins],
         "detail": [{k: v for k, v in r.items()} for r in results],
     }
